@@ -399,6 +399,71 @@ pub fn history_for(cfg: &Cfg, h: u64) -> (&'static str, String, Vec<String>) {
     let coll = COLLS[(h % 7) as usize];
     let mut rng = Rng::new(cfg.seed).derive(0xFA17).derive(h);
     let len = cfg.num("len", 18) as usize;
+    // one history in 8 (not under Miri-sized runs): a bulk prefix that is not enumerated ("#from N"),
+    // so that faults hit operations on collections holding 65..260 entries (long purges, deep
+    // descents, full place lists)
+    let bulk = cfg.num("bulk", 1) != 0 && (h / 7) % 8 == 3;
+    if bulk {
+        let n = rng.range(65, 260) as usize;
+        let mut lines: Vec<String> = Vec::new();
+        match coll {
+            "KeyExpTree" | "KeyExpList" => {
+                let mut keys: Vec<i32> = (0..n as i32).collect();
+                rng.shuffle(&mut keys);
+                for &k in &keys {
+                    let exp = if rng.chance(1, 3) { rng.range(3, 6) } else { 100 };
+                    lines.push(KOp::Ins { k: 2 * k + 1, exp: exp as i32, t: 0 }.line());
+                }
+                lines.push(format!("#from {}", n));
+                for t in [5, 5, 6, 7] {
+                    let p = rng.range(0, 2 * n as i64) as i32;
+                    lines.push(match rng.below(5) {
+                        0 => KOp::Get { t, k: p },
+                        1 => KOp::Fl { t, k: p },
+                        2 => KOp::Fle { t, k: p },
+                        3 => KOp::Fleb { t, k: p, mode: rng.below(3) as u8 },
+                        _ => KOp::Ins { k: 2 * n as i32 + 1 + 2 * t, exp: t + 3, t },
+                    }
+                    .line());
+                }
+                lines.push(KOp::Export { t: 8 }.line());
+                return (coll, "hint=8".to_string(), lines);
+            }
+            "SegExpTree" => {
+                // many values in the same place lists, a third of them expiring early
+                for i in 0..n {
+                    let a = rng.range(0, 3);
+                    lines.push(SOp::Ins { lo: a, hi: a + rng.range(0, 9), exp: if i % 3 == 0 { rng.range(2, 5) as i32 } else { 50 } }.line());
+                }
+                lines.push(format!("#from {}", n));
+                lines.push(SOp::Q { lo: 0, hi: 2, t: 5, take: -1 }.line());
+                lines.push(SOp::Ins { lo: 1, hi: 14, exp: 9 }.line());
+                lines.push(SOp::Q { lo: 0, hi: 31, t: 6, take: -1 }.line());
+                return (coll, "coord=i32 lo=0 hi=31".to_string(), lines);
+            }
+            _ => {
+                let mut keys: Vec<i32> = (0..n as i32).collect();
+                rng.shuffle(&mut keys);
+                for &k in &keys {
+                    lines.push(OOp::Ins { k: 2 * k + 1 }.line());
+                }
+                lines.push(format!("#from {}", n));
+                for _ in 0..5 {
+                    let p = rng.range(0, 2 * n as i64) as i32;
+                    lines.push(match rng.below(6) {
+                        0 => OOp::Ins { k: 2 * p },
+                        1 => OOp::Del { k: 2 * (p / 2) + 1 },
+                        2 => OOp::DelH { k: p },
+                        3 => OOp::FilB { k: p, mode: rng.below(3) as u8 },
+                        4 => OOp::Wrh { k: p },
+                        _ => OOp::Get { k: p },
+                    }
+                    .line());
+                }
+                return (coll, format!("hint=8 uni=0..{}", 2 * n + 2), lines);
+            }
+        }
+    }
     match coll {
         "KeyExpTree" | "KeyExpList" => {
             let kp = key::profiles(false);
@@ -412,7 +477,9 @@ pub fn history_for(cfg: &Cfg, h: u64) -> (&'static str, String, Vec<String>) {
             (coll, format!("hint={}", hint), ops.iter().map(|o| o.line()).collect())
         }
         "SegExpTree" => {
-            let ((lo, hi), ops) = crate::seg_suites::gen_history(&mut rng, h / 7, len);
+            // (the fault executor is instantiated for 32-bit coordinates: skip the 64-bit domain slot)
+            let hh = if (h / 7) % 13 == 7 { h / 7 + 1 } else { h / 7 };
+            let ((lo, hi), ops) = crate::seg_suites::gen_history(&mut rng, hh, len);
             (coll, format!("coord=i32 lo={} hi={}", lo, hi), ops.iter().map(|o| o.line()).collect())
         }
         _ => {
@@ -427,26 +494,30 @@ pub fn history_for(cfg: &Cfg, h: u64) -> (&'static str, String, Vec<String>) {
 
 pub fn run_lines(coll: &str, ctor: &str, lines: &[String], rep: &mut Report, hist: u64, only: Option<(usize, u64)>) {
     let clean: Vec<&String> = lines.iter().filter(|l| !l.starts_with('#')).collect();
+    let from_op: usize = lines.iter().find_map(|l| l.strip_prefix("#from ").and_then(|x| x.trim().parse().ok())).unwrap_or(0);
+    if from_op > 0 {
+        rep.counters.inc("bulk_histories");
+    }
     match coll {
         "KeyExpTree" | "KeyExpList" => {
             let ops: Vec<KOp> = clean.iter().filter_map(|l| KOp::parse(l)).collect();
             if coll == "KeyExpTree" {
-                fault_history::<KeyExec<KTree>>(ctor, &ops, rep, hist, only)
+                fault_history_from::<KeyExec<KTree>>(ctor, &ops, rep, hist, only, from_op)
             } else {
-                fault_history::<KeyExec<KList>>(ctor, &ops, rep, hist, only)
+                fault_history_from::<KeyExec<KList>>(ctor, &ops, rep, hist, only, from_op)
             }
         }
         "SegExpTree" => {
             let ops: Vec<SOp> = clean.iter().filter_map(|l| SOp::parse(l)).collect();
-            fault_history::<SegExec<i32>>(ctor, &ops, rep, hist, only)
+            fault_history_from::<SegExec<i32>>(ctor, &ops, rep, hist, only, from_op)
         }
         _ => {
             let ops: Vec<OOp> = clean.iter().filter_map(|l| OOp::parse(l)).collect();
             match coll {
-                "MapTree" => fault_history::<OrdExec<MTree>>(ctor, &ops, rep, hist, only),
-                "MapList" => fault_history::<OrdExec<MList>>(ctor, &ops, rep, hist, only),
-                "SetTree" => fault_history::<OrdExec<STree>>(ctor, &ops, rep, hist, only),
-                _ => fault_history::<OrdExec<SList>>(ctor, &ops, rep, hist, only),
+                "MapTree" => fault_history_from::<OrdExec<MTree>>(ctor, &ops, rep, hist, only, from_op),
+                "MapList" => fault_history_from::<OrdExec<MList>>(ctor, &ops, rep, hist, only, from_op),
+                "SetTree" => fault_history_from::<OrdExec<STree>>(ctor, &ops, rep, hist, only, from_op),
+                _ => fault_history_from::<OrdExec<SList>>(ctor, &ops, rep, hist, only, from_op),
             }
         }
     }
